@@ -31,6 +31,7 @@ Definition parse_label (l : list N) : option label :=
   | [16; e; sid] => Some (LShutdown e sid)
   | [17; e; sid] => Some (LDropStream e sid)
   | [33; e; sid] => Some (LDropDeliver e sid)
+  | [34; d] => Some (LDeliverAll d)
   | [18; d] => Some (LDeliver d)
   | 19 :: e :: fid :: port :: r =>
       match parse_lp r with
